@@ -222,7 +222,7 @@ def invN : Nat → Inv UState
     | some (s, isCtx) => runScript (invN n) isCtx s args w
     | none => (.err .user, w)
 
-def theInv : Inv UState := invN 16
+def theInv : Inv UState := invN 1024
 
 /-! ### rendering of responses -/
 def resTag {α : Type} : Res α → String
